@@ -885,7 +885,7 @@ pub fn run(tier: &Tier) -> i32 {
         c.sample(json!({"part": "iteration orders", "name": name, "src": src, "orders": fact(*e)}));
     }
     c.sample(json!({"part": "interleavings", "alphabet": env.alpha.iter().map(|i| env.code[*i].clone()).collect::<Vec<_>>(), "streams": streams.len(), "max_len": maxlen}));
-    if inter_n.load(Ordering::Relaxed) < 100_000 || hist_n.load(Ordering::Relaxed) < 3000 || distinct_msgs.lock().unwrap().len() < 5 {
+    if (inter_n.load(Ordering::Relaxed) < 100_000 || hist_n.load(Ordering::Relaxed) < 3000 || distinct_msgs.lock().unwrap().len() < 5) && rep.unknown_count() == 0 {
         eprintln!("MACHINERY: C19 explored too little");
         return 2;
     }
